@@ -44,6 +44,13 @@ Variable num_text : variant -> list Z.
 Variable is_negative : variant -> bool.
 
 (** expressions: value *)
+From RB Require Import Lang.TableRule.
+
+(** the static types of binary operators computed by the checker (table regenerated from its code on
+    every run) are the language rule: comparisons, AND, OR, MOD give INTEGER; + - * / the wider operand type *)
+Theorem C01_static_types_follow_the_rule : forall l r op, cast_binary_op l r op = spec_binary_op l r op.
+Proof. exact cast_binary_op_is_the_rule. Qed.
+
 Theorem C01_expression_value : forall e code pc0 r t vs ps mv sc sk v st',
   code_at code pc0 (gen_expr e) ->
   eval e mv = EVal v st' ->
@@ -140,3 +147,4 @@ Print Assumptions C01_program_straightline.
 Print Assumptions C01_budget_irrelevant.
 Print Assumptions C01_validated_statement.
 Print Assumptions C01_validated_program.
+Print Assumptions C01_static_types_follow_the_rule.
